@@ -213,9 +213,6 @@ func (g *Gen) freshHeap(hint, name, sort string) string {
 // heapRange: in int mode an unconstrained heap array of machine integers gets the axiom that every cell lies
 // in the range of its Go type (needed where values are read under quantifiers, where no per-read fact exists).
 func (g *Gen) heapRange(constName, heapName string) {
-	if g.mode != "int" {
-		return
-	}
 	t, ok := g.leafT[heapName]
 	if !ok {
 		return
@@ -223,15 +220,38 @@ func (g *Gen) heapRange(constName, heapName string) {
 	depth := g.leafDepth[heapName]
 	var lo, hi string
 	if ii, ok := intInfoOf(t); ok {
+		if g.mode != "int" {
+			return
+		}
 		l, h := rangeOf(ii)
 		lo, hi = intConstStr(l), intConstStr(h)
+	} else if isRefLike(t) {
+		// every reference stored in this version of the heap was allocated before the version came to be:
+		// in particular nothing in the entry heap can alias an object allocated during the activation
+		lo = "0"
+		if strings.HasPrefix(constName, "|H0:") {
+			hi = g.allocTerm(g.heap0)
+		} else {
+			hi = g.allocTerm(g.heap)
+		}
+		if _, isIface := t.Underlying().(*types.Interface); isIface {
+			lo = "(- 1000000)"
+		}
 	} else {
 		return
+	}
+	idxS := "Int"
+	if g.mode == "bv" {
+		idxS = "(_ BitVec 64)"
 	}
 	var binders, idx []string
 	for i := 0; i < depth; i++ {
 		v := fmt.Sprintf("i%d", i)
-		binders = append(binders, "("+v+" Int)")
+		if i == 0 {
+			binders = append(binders, "("+v+" Int)")
+		} else {
+			binders = append(binders, "("+v+" "+idxS+")")
+		}
 		idx = append(idx, v)
 	}
 	term := sel(constName, idx...)
@@ -252,10 +272,22 @@ func (g *Gen) noteLeaf(heapName string, l Leaf, nidx int) {
 		g.leafT[heapName] = l.T
 	case "off", "len", "cap":
 		g.leafT[heapName] = intT
+	case "arr":
+		g.leafT[heapName] = types.Typ[types.UnsafePointer]
 	default:
 		return
 	}
 	g.leafDepth[heapName] = nidx
+}
+
+func isRefLike(t types.Type) bool {
+	switch u := t.Underlying().(type) {
+	case *types.Pointer, *types.Map, *types.Chan, *types.Signature, *types.Interface:
+		return true
+	case *types.Basic:
+		return u.Kind() == types.UnsafePointer
+	}
+	return false
 }
 
 func (g *Gen) heapGet(h *Heap, name, sort string) string {
